@@ -129,6 +129,16 @@ CHECKS = {
              "and importing the cloud bytes consumes exactly them and yields a key that has both evaluation keys.",
         note="'Contains no secret' is decided for the encodings searched; an arbitrary transformation of the key hidden in the mask coefficients is outside any byte search (the call-level grammar leaves no room for extra bytes, which bounds this).",
         design="§6 C17"),
+    "C18": dict(
+        category="fault_enumeration",
+        technique="Fault enumeration over the Serial grammar: every byte offset (crash point of the writer), every A-for-B substitution, every single-byte corruption of tags and titles; "
+                  "each case imported in a forked child; the observed outcome decided by TLC against Serial!AllowedOutcome (Table_C18)",
+        text="For each of 13 small-parameter object types every proper prefix of the export (all byte offsets), for key sets at N = 1024 all offsets of the text parts, section boundaries, tags and a stride through the payload, "
+             "on both transports; every export fed to every other type's importer; every byte of every tag and of every BEGIN/END line flipped. The import runs in a forked child and reports: terminated by signal / non-zero exit / "
+             "returned with failed stream / returned clean (plus whether the object equals the original). TLC accepts 'clean' only for the intact stream (control: must be clean and equal), for a stream that begins with a complete well-typed "
+             "export of the requested type (decided from Serial!Export), and for the one named deviation of the code (AcceptMissingFinalNewline: stream transport, trailing text section, only the final newline missing, complete object).",
+        note="Exhaustive over offsets for small-parameter objects, strided for large ones. Memory safety of the importer while failing is not decided here.",
+        design="§6 C18"),
 }
 
 NOT_YET = {}
